@@ -27,6 +27,12 @@ pub fn install_hook() {
 }
 
 fn guard<T, F: FnOnce() -> T>(what: &str, out: &mut Vec<(String, String)>, f: F) -> Option<T> {
+    // A caller without catch_unwind is gone after the first panic, and the object it was using may
+    // be left mid-update (the container's lock is poisoned): only the FIRST panic per file is the
+    // library's answer to that file, so the rest of the battery is skipped.
+    if !out.is_empty() {
+        return None;
+    }
     match catch_unwind(AssertUnwindSafe(f)) {
         Ok(v) => Some(v),
         Err(_) => {
